@@ -373,12 +373,14 @@ type Domain struct {
 	SharedSlices     bool // the same slice/map object in two places
 	OddMaps          bool // maps whose key / element kinds differ from the wire kinds (type MapsOdd)
 	Untyped          bool // untyped containers ([]interface{}, map[string]interface{}: type Bag) with dynamic elements
+	HugeLists        bool // now and then a list of 4095..20000 cheap elements (beyond any pre-allocation cap / growth step)
+	LooseDyn         bool // dynamic elements whose type does not survive a round trip (typed slices, maps at interface positions)
 	MaxListLen       int
 	MaxMapLen        int
 }
 
 func CoreDomain() Domain {
-	d := Domain{Untyped: true, EmptyStringElems: true, NilPtrElems: true, ZeroTimeElems: true, FarDates: true, BigStrings: true, BigBinaries: true, AllDoubles: true, MaxListLen: 40, MaxMapLen: 6}
+	d := Domain{Untyped: true, HugeLists: true, EmptyStringElems: true, NilPtrElems: true, ZeroTimeElems: true, FarDates: true, BigStrings: true, BigBinaries: true, AllDoubles: true, MaxListLen: 40, MaxMapLen: 6}
 	// development aid: VF_DOMAIN=EmptyStringElems,FarDates,... switches excluded features on, to find out
 	// whether they (still) fail; registered checks never set it
 	for _, f := range strings.Split(os.Getenv("VF_DOMAIN"), ",") {
@@ -407,6 +409,7 @@ type Gen struct {
 	k0s    []*K00
 	nextID int32
 	size   int // soft budget of generated "atoms" per value
+	huge   int // huge lists generated so far
 	used   map[string]int
 }
 
@@ -700,6 +703,19 @@ func (g *Gen) fillValue(f reflect.Value, ft reflect.Type, depth int, elem bool) 
 			return
 		}
 		n := g.listLen()
+		if g.dom.HugeLists && depth <= 1 && g.huge < 2 && cheapElem(et) && g.ch.Intn(40, "list.huge?") == 1 {
+			// a list far longer than anything else in the zoo: decoders that pre-allocate up to a cap and
+			// grow in steps take other paths beyond the cap
+			n = hugeLens[g.ch.Intn(len(hugeLens), "list.hugelen")] + g.ch.Range(-1, 1, "list.hugeadj")
+			g.huge++
+			g.note("list.huge")
+			sl := reflect.MakeSlice(ft, n, n)
+			for i := 0; i < n; i++ {
+				g.cheapFill(sl.Index(i), i)
+			}
+			f.Set(sl)
+			return
+		}
 		if depth > 2 && n > 2 {
 			n = 2
 		}
@@ -736,15 +752,53 @@ func (g *Gen) fillValue(f reflect.Value, ft reflect.Type, depth int, elem bool) 
 	}
 }
 
+var hugeLens = []int{4096, 8192, 8200, 9000, 9216, 12000, 16384, 17000, 20000}
+
+func cheapElem(et reflect.Type) bool {
+	switch et.Kind() {
+	case reflect.Int8, reflect.Int16, reflect.Int32, reflect.Int, reflect.Int64, reflect.Bool, reflect.Float64, reflect.String, reflect.Interface:
+		return true
+	}
+	return false
+}
+
+// cheapFill sets element i of a huge list without drawing: the content is a function of the index.
+func (g *Gen) cheapFill(e reflect.Value, i int) {
+	switch e.Kind() {
+	case reflect.Int8, reflect.Int16, reflect.Int32, reflect.Int, reflect.Int64:
+		e.SetInt(int64(i % 100))
+	case reflect.Bool:
+		e.SetBool(i%3 == 0)
+	case reflect.Float64:
+		e.SetFloat(float64(i%50) + 0.5)
+	case reflect.String:
+		e.SetString(string(rune('a' + i%26)))
+	case reflect.Interface:
+		switch i % 4 {
+		case 0:
+			e.Set(reflect.ValueOf(int32(i)))
+		case 1:
+			e.Set(reflect.ValueOf(string(rune('a' + i%26))))
+		case 2:
+			// nil
+		default:
+			e.Set(reflect.ValueOf(int64(i) << 33))
+		}
+	}
+}
+
 // dyn sets the interface-typed slot f (an element of an untyped list / a value of an untyped map) to a
 // value of a drawn dynamic type. Only dynamic types that travel as themselves are drawn: the canonical
 // wire scalars, byte slices, times, struct pointers (possibly the same pointer twice: a back-reference
 // inside an untyped container), and nested untyped lists.
 func (g *Gen) dyn(f reflect.Value, depth int) {
 	g.note("untyped.elem")
-	w := []int{14, 8, 8, 12, 6, 6, 6, 6, 12, 10, 12}
+	w := []int{14, 8, 8, 12, 6, 6, 6, 6, 12, 10, 12, 0, 0, 0}
+	if g.dom.LooseDyn {
+		w[11], w[12], w[13] = 6, 8, 6
+	}
 	if depth > 3 {
-		w[10] = 0
+		w[10], w[12], w[13] = 0, 0, 0
 	}
 	switch g.ch.Pick(w, "dyn.kind") {
 	case 0:
@@ -785,6 +839,50 @@ func (g *Gen) dyn(f reflect.Value, depth int) {
 		}
 		g.note("untyped.nestedlist")
 		f.Set(reflect.ValueOf(l))
+	case 11:
+		// a typed slice at an interface position (comes back as []interface{})
+		if g.ch.Intn(2, "dyn.typed") == 0 {
+			l := make([]int32, g.ch.Range(1, 3, "dyn.list.len"))
+			for i := range l {
+				l[i] = int32(g.int64In(-1<<31, 1<<31-1, intEdges32))
+			}
+			f.Set(reflect.ValueOf(l))
+		} else {
+			l := make([]string, g.ch.Range(1, 3, "dyn.list.len"))
+			for i := range l {
+				l[i] = g.str(true)
+			}
+			f.Set(reflect.ValueOf(l))
+		}
+		g.note("untyped.typedslice")
+	case 12:
+		// an untyped string-keyed map at an interface position (comes back as map[interface{}]interface{})
+		m := map[string]interface{}{}
+		for i, n := 0, g.ch.Range(0, 3, "dyn.map.len"); i < n; i++ {
+			var v interface{}
+			g.dyn(reflect.ValueOf(&v).Elem(), depth+1)
+			m[g.str(true)] = v
+		}
+		g.note("untyped.map")
+		f.Set(reflect.ValueOf(m))
+	case 13:
+		// a map with keys of mixed dynamic types
+		m := map[interface{}]interface{}{}
+		for i, n := 0, g.ch.Range(0, 3, "dyn.map.len"); i < n; i++ {
+			var k, v interface{}
+			switch g.ch.Intn(3, "dyn.key") {
+			case 0:
+				k = g.str(true)
+			case 1:
+				k = int32(g.int64In(-1<<31, 1<<31-1, intEdges32))
+			default:
+				k = g.int64In(-1<<63, 1<<63-1, intEdges64)
+			}
+			g.dyn(reflect.ValueOf(&v).Elem(), depth+1)
+			m[k] = v
+		}
+		g.note("untyped.mixedmap")
+		f.Set(reflect.ValueOf(m))
 	}
 }
 
